@@ -77,6 +77,7 @@ func TestCheck(t *testing.T) {
 				r.Bucket("db_calls:restored:"+k, int64(v))
 			}
 		}
+		runSyncDuringCreate(r, round)
 		runConcurrent(r, t, round)
 	}
 
@@ -115,6 +116,10 @@ func TestCheck(t *testing.T) {
 		"cases:restored":                           15000,
 		"restored_cases_dohonly_device":            1000,
 		"db_calls:restored:device-id":              1000,
+		"syncrace_creates_in_flight_during_sync":   2,
+		"syncrace_cases":                           1000,
+		"syncrace_cases:deleted":                   400,
+		"syncrace_cases:detached":                  400,
 		"concurrent_requests":                      4000,
 		"concurrent_prior_unknown_dedicated_drops": 16,
 		"concurrent_unknown_dedicated_drops":       100,
